@@ -161,7 +161,7 @@ let run (path : string) =
            cmpf "K.locker_bt" (sz !m_bt) lbt'; cmpf "K.locker_bh" (sz !m_bh) lbh'; cmpf "K.locker_module_delta" "0" lockermod_delta; bump "K:untouched")
       (* ---------------- IterateLends ---------------- *)
       | "o" :: "IL" :: now :: mbal :: tb :: tsb :: last :: amt :: gi :: trf :: tr :: avail :: totrew :: _tia
-        :: c :: idx :: trf' :: tr' :: avail' :: totrew' :: [] ->
+        :: c :: idx :: trf' :: tr' :: avail' :: totrew' :: dc :: direct :: [] ->
         incr step; incr steps; Buffer.add_string sig_ line;
         let now = zs now in
         if !first then begin first := false; m_tr := trk trf tr; m_rec := zs avail; m_aux := zs totrew; m_bt := zs last; m_aux2 := zs gi end;
@@ -181,7 +181,9 @@ let run (path : string) =
               cmpf "IL.index" (sz igc) idx; cmpf "IL.tracker" ("1:" ^ sz t') (trf' ^ ":" ^ tr');
               cmpf "IL.avail" (sz (zadd !m_rec pd)) avail'; cmpf "IL.rewards" (sz (zadd !m_aux pd)) totrew';
               let secs = Accrual.lend_secs now !m_bt in
-              judge "lend" ~secs ~t0:(if trf = "1" then zs tr else z0) ~r0:(zs avail) ~accrued:x ~t1:(zs tr') ~r1:(zs avail');
+              (* CalculateLendReward called directly on the same operands: an error there is ignored by IterateLends (it adds zero) *)
+              cmpf "IL.direct" (sz x) (if dc = "ok" then direct else "0");
+              judge "lend" ~secs ~t0:(if trf = "1" then zs tr else z0) ~r0:(zs avail) ~accrued:(zs direct) ~t1:(zs tr') ~r1:(zs avail');
               if not (zeq (zsub (zs totrew') (zs totrew)) (zsub (zs avail') (zs avail))) then pf "lend_rewards_vs_available" totrew';
               m_tr := Some t'; m_rec := zadd !m_rec pd; m_aux := zadd !m_aux pd;
               (* the callers store the returned index (if positive) and the interaction time *)
